@@ -6,6 +6,10 @@ ALL = ["C%02d" % i for i in range(1, 21)]
 
 # id -> (engine, level, technique, text, note, design_ref)
 CHECKS = {
+ "C20": ("mc-seq", "model_checking",
+   "stateless exhaustive exploration of read/seek operation sequences on the real SeekableChain against std::io::Cursor; exhaustive archive/pattern/sandbox product on the real extraction code",
+   "Chain: every split of a byte string of length <= 6 into <= 3 volumes (empty ones included; in-memory, 1-byte-read and real-file volumes) x every sequence of read/seek operations up to depth 4 (quick) / 5-6 (thorough), each on a fresh chain, compared with a Cursor over the concatenation (sequences the reference rejects are counted and excluded). Extraction: hand-written zip containers with hostile member names (.., absolute, aliases, duplicates, empty, directory entries, > 64 KiB) x glob patterns x pre-existing foreign files x extract_archives / extract_to_dir, every multi-volume cut, and a skipped-member size sweep past the zip reader's EOCD window; each case in its own sandbox that is snapshotted before and after: nothing created/modified outside, contents identical, reported set = matching members whose names stay inside.",
+   "Trusted: the harness' zip writer and sandbox snapshot. Not covered: deflate members, symlinks, libarchive formats, streams longer than 6 bytes / more than 3 volumes.", "4 C20"),
  "C16": ("mc-remote", "model_checking",
    "exhaustive enumeration of arrival batchings / windows / filters / window changes / search pagings, executed on the real stream code (library) and on the real server handlers via the in-binary driver",
    "Library: every log of N<=6/8 messages x 2^N match patterns x stream/query x window ends x chunk sizes x every composition of N into arrival batches (x window extensions) on the real process_stream_new_msgs, judged after every tick. Server: 2160 (quick) / ~12k (thorough) scripted sessions on the real handlers - every filter set x window x kind x binary/text x arrival batching, one window change after every tick, all search pagings, index/time lookups for every message - compared with the filtered log computed from the generated file.",
